@@ -276,11 +276,16 @@ def run(ctx):
         n = len(c["data"])
         big = n > 5000
         kinds = [(0, 1, c["esz"], 3)]                                   # owner with the element size of the input
-        if not big or v == "z":
-            kinds.append((1, 1, 1, 0))                                   # in place
-        if not big:
-            kinds.append((0, 0, c["esz"], n // c["esz"]))               # a view that fits exactly
-            kinds.append((0, 0, 1, n + 9))                               # a larger view
+        alt = [(1, 1, 1, 0),                                             # in place
+               (0, 0, c["esz"], n // c["esz"]),                          # a view that fits exactly
+               (0, 0, 1, n + 9)]                                         # a larger view
+        if big:
+            if v == "z":
+                kinds.append(alt[0])
+        elif ctx.quick:
+            kinds.append(alt[(i + (v == "z")) % 3])                      # quick tier: the three other kinds in rotation
+        else:
+            kinds += alt
         for kd in kinds:
             mx = rng.choice([0, n, n + 1, 0]) if n else 0
             dl.append("dec %x %x %x %x %x %s" % (kd[0], kd[1], kd[2], kd[3], mx, cc.hx(text)))
